@@ -1,6 +1,6 @@
 From Coq Require Import ZArith List Bool Reals Lra.
 From Flocq Require Import Core BinarySingleNaN.
-Require Import GV.FloatBase GV.FloatLemmas GV.AngleM GV.AngleProofs GV.GeonumM GV.GeonumProofs GV.TraitsM.
+Require Import GV.FloatBase GV.FloatLemmas GV.AngleM GV.AngleProofs GV.GeonumM GV.GeonumProofs GV.TraitsM GV.NewProofs GV.CtorProofs GV.ClosureProofs.
 Open Scope R_scope.
 Require Import GV.Properties.C09.
 Check C09_encoding : forall (L : libm) a b, fin (dot_value L a b) ->
@@ -15,3 +15,6 @@ Print Assumptions C09_orthogonal.
 Check C09_diff_canon : forall a b, canonp (rem (ang a)) -> canonp (rem (ang b)) ->
   canonp (rem (geometric_sub (ang b) (ang a))) /\ (0 <= blade (geometric_sub (ang b) (ang a)))%Z.
 Print Assumptions C09_diff_canon.
+Check C09_self : forall (L : libm) a, cos_zero_one L -> fin (rem (ang a)) -> fin (fmul (mag a) (mag a)) ->
+  dot L a a = {| mag := fmul (mag a) (mag a); ang := {| rem := zero; blade := 0 |} |}.
+Print Assumptions C09_self.
